@@ -94,31 +94,36 @@ def gen_fea(rng):
     return fea
 
 
-def build_font(fea_text, glyph_order=None, colr_rng=None):
+def build_font(fea_text, glyph_order=None, colr_rng=None, cff=False):
+    """`cff=True`: the same font with CFF outlines (charstrings are paired with glyph names through the CFF charset, not through glyf)"""
     from fontTools.fontBuilder import FontBuilder
     from fontTools.pens.ttGlyphPen import TTGlyphPen
+    from fontTools.pens.t2CharStringPen import T2CharStringPen
     from fontTools.feaLib.builder import addOpenTypeFeaturesFromString
     from fontTools import ttLib
 
     order = list(glyph_order or GLYPHS)
-    fb = FontBuilder(1000, isTTF=True)
+    fb = FontBuilder(1000, isTTF=not cff)
     fb.setupGlyphOrder(order)
     cmap = {0x61 + i: g for i, g in enumerate(BASES)}
     cmap.update({0x300 + i: m for i, m in enumerate(MARKS)})
     fb.setupCharacterMap(cmap)
     glyphs = {}
     for i, g in enumerate(order):
-        pen = TTGlyphPen(None)
+        pen = T2CharStringPen(500 + 10 * GLYPHS.index(g), None) if cff else TTGlyphPen(None)
         if g != ".notdef" or True:
             s = 10 * (GLYPHS.index(g) + 1)
             pen.moveTo((0, 0)); pen.lineTo((s, 0)); pen.lineTo((s, s)); pen.lineTo((0, s)); pen.closePath()
-        glyphs[g] = pen.glyph()
-    fb.setupGlyf(glyphs)
+        glyphs[g] = pen.getCharString() if cff else pen.glyph()
+    if cff:
+        fb.setupCFF("L-R", {"FullName": "L R"}, glyphs, {})
+    else:
+        fb.setupGlyf(glyphs)
     fb.setupHorizontalMetrics({g: (500 + 10 * GLYPHS.index(g), 0) for g in order})
     fb.setupHorizontalHeader(ascent=800, descent=-200)
     fb.setupNameTable({"familyName": "L", "styleName": "R"})
     fb.setupOS2(sTypoAscender=800, sTypoDescender=-200, usWinAscent=800, usWinDescent=200)
-    fb.setupPost(keepGlyphNames=True)
+    fb.setupPost(keepGlyphNames=not cff)
     addOpenTypeFeaturesFromString(fb.font, fea_text)
     if colr_rng is not None:
         from fontTools.colorLib import builder
